@@ -149,11 +149,11 @@ def check_rows(E: Engine, rep: Report, rule: str, rows: list[dict], source: str 
                         if row.get("none_guard"):
                             g = any(
                                 l2.atom is not None and l2.atom.rel == "IsNot" and all(l2.atom.lhs.has_root(r) for r in row["limit"]) and "const:None" in l2.atom.rhs.roots
-                                or (l2.atom is None and l2.truth is not None and l2.positive and all(l2.truth.has_root(r) for r in row["limit"]))
+                                or (row.get("zero_excluded") and l2.atom is None and l2.truth is not None and l2.positive and all(l2.truth.has_root(r) for r in row["limit"]))
                                 for l2 in conj
                             )
                             if not g:
-                                found_wrong.append((line, a, "limit compared without a dominating `is not None` guard (an undefined limit would raise TypeError instead of constraining nothing)"))
+                                found_wrong.append((line, a, "limit compared without a dominating `is not None` guard (an undefined limit would raise TypeError instead of constraining nothing; a truthiness test is not enough where 0 is a legal limit: it would switch the limit off)"))
                                 continue
                         found_ok = (line, a, conj)
                     else:
